@@ -35,11 +35,13 @@ TR = "expression::number_tracker::NumberTracker::"
 
 
 class _P(Policy):
+    """free helper functions of the tracker module (e.g. a word/bit split) are inlined; trait methods stay calls"""
     loop_mode = "widen"
     max_depth = 3
 
     def inline(self, fn, args, interp, path):
-        return False
+        b = interp.callee_body(fn)
+        return b is not None and b.get("kind") == "Fn" and fn.get("path", "").startswith("expression::number_tracker::")
 
 
 class EvalError(Exception):
